@@ -136,6 +136,10 @@ def class_without_instances_row(ctx, clause):
     prof = p.find_class("ClassProfiler")
     init_m = prof.find_method("_init_class_features_dict")
     ann = p.find_class("AnnotateMinIriStrategy").find_method("annotate_shape_iri")
+    if init_m is None or ann is None:
+        from ..core import AnalysisError
+        raise AnalysisError("anchor method vanished: %s" % ("ClassProfiler._init_class_features_dict" if init_m is None else
+                                                             "AnnotateMinIriStrategy.annotate_shape_iri"))
     sfd = p.find_class("ShapeExampleFeaturesDict")
     ev = Evaluator(ctx, max_depth=10)
     ev.concrete_classes = {"ShapeExampleFeaturesDict"}
